@@ -12,7 +12,7 @@ is polled, not called), functions of other crates than the workspace libraries, 
 import copy, json, os
 
 WS = ('erltf', 'erltf_serde', 'edp_client', 'edp_node', 'edp_elixir_terms', 'erltf_serde_derive')
-MAX_BLOCKS = 400
+MAX_BLOCKS = 1200
 MAX_DEPTH = 4
 VERIF = os.path.dirname(os.path.dirname(os.path.abspath(__file__)))
 
@@ -234,6 +234,108 @@ def inline_awaits(F, body, coros, depth=0):
                 ss.append({'k': '=', 'pl': copy.deepcopy(dst), 'rv': {'k': 'agg', 'ak': 'adt', 'adt': 'core::task::poll::Poll', 'var': 'Ready', 'vi': 0, 'fn': ['0'],
                                                                      'ops': [{'k': 'mv', 'pl': {'l': lo, 'p': None}}]}, 'ln': t.get('ln'), 'inl': agg['def']})
                 nt = {'k': 'goto', 't': ret_to, 'ln': ct.get('ln'), 'inl': agg['def']}
+            elif ct['k'] == 'resume':
+                nt = {'k': 'goto', 't': unw_to, 'ln': ct.get('ln')} if isinstance(unw_to, int) else dict(ct)
+            else:
+                nt = fix(_ren_term(ct, lo, bo))
+            nb['blocks'].append({'s': ss, 't': nt})
+    nb['n_inlined'] = body.get('n_inlined', 0) + 1
+    return nb
+
+
+INLINED_CLOSURE_CALLS = {}
+_CLOSURE_CALLS = ('core::ops::function::FnOnce::call_once', 'core::ops::function::FnMut::call_mut', 'core::ops::function::Fn::call')
+
+
+def inline_closure_calls(F, body, bodies=None, depth=0):
+    """`f()` where f is, after the helpers were spliced in, a closure written in this very body (a new helper took it as an
+    `impl FnOnce` parameter): the closure's body is spliced in at the call, its environment bound to the closure value."""
+    if depth > MAX_DEPTH:
+        return body
+    bodies = bodies or F.bodies
+    sites = [i for i, blk in enumerate(body['blocks']) if blk['t'].get('k') == 'call' and (blk['t'].get('f') or {}).get('fn') in _CLOSURE_CALLS
+             and len(blk['t'].get('args') or ()) == 2 and isinstance(blk['t'].get('t'), int)]
+    if not sites:
+        return body
+    from .core import B as _B
+    W = _B(body)
+    todo = []
+    for i in sites:
+        t = body['blocks'][i]['t']
+        try:
+            o = W.origin(t['args'][0])
+        except Exception:
+            continue
+        by_ref = False
+        if o and o[0] == 'ref' and len(o) > 1 and isinstance(o[1], tuple):
+            o, by_ref = o[1], True
+        if not (o and o[0] == 'agg' and isinstance(o[1], dict) and o[1].get('ak') == 'closure'):
+            continue
+        agg = o[1]
+        d = o[1].get('def')
+        cb = bodies.get(d) or F.bodies.get(d)
+        if cb is None or d == body['path'] or len(cb['blocks']) > MAX_BLOCKS:
+            continue
+        a1 = t['args'][1]
+        n_par = cb.get('argc', 1) - 1
+        if n_par > 0 and a1.get('k') == 'c':
+            continue
+        if by_ref != (t['f']['fn'] != _CLOSURE_CALLS[0]):
+            continue
+        todo.append((i, d, cb, n_par, agg))
+    if not todo:
+        return body
+    nb = dict(body)
+    nb['locals'] = list(body['locals'])
+    nb['blocks'] = [{'s': list(blk['s']), 't': dict(blk['t'])} for blk in body['blocks']]
+    for i, d, cb, n_par, agg in todo:
+        INLINED_CLOSURE_CALLS[d] = INLINED_CLOSURE_CALLS.get(d, 0) + 1
+        blk = nb['blocks'][i]
+        t = blk['t']
+        lo = len(nb['locals'])
+        bo = len(nb['blocks'])
+        nb['locals'] = nb['locals'] + [dict(l_) for l_ in cb['locals']]
+        env = copy.deepcopy(t['args'][0])
+        if env.get('k') == 'mv':
+            env['k'] = 'cp'
+        pre = [{'k': '=', 'pl': {'l': lo + 1, 'p': None}, 'rv': {'k': 'use', 'op': env}, 'ln': t.get('ln'), 'inl': d}]
+        for j in range(n_par):
+            tup = copy.deepcopy(t['args'][1]['pl'])
+            tup['p'] = list(tup.get('p') or []) + [{'f': j}]
+            pre.append({'k': '=', 'pl': {'l': lo + 2 + j, 'p': None}, 'rv': {'k': 'use', 'op': {'k': 'mv', 'pl': tup}}, 'ln': t.get('ln'), 'inl': d})
+        # captured variables: fresh locals bound to the operands the closure value was built from
+        ups = {}
+        for k_, op_ in enumerate(agg.get('ops') or []):
+            ups[k_] = len(nb['locals'])
+            nb['locals'] = nb['locals'] + [{'ty': '?', 'n': 'upvar%d' % k_}]
+            o2 = copy.deepcopy(op_)
+            if o2.get('k') == 'mv':
+                o2['k'] = 'cp'
+            pre.append({'k': '=', 'pl': {'l': ups[k_], 'p': None}, 'rv': {'k': 'use', 'op': o2}, 'ln': t.get('ln'), 'inl': d})
+
+        def fix(x):
+            """places rooted in the environment `_1.k...` / `(*_1).k...` become the fresh local for captured variable k"""
+            if isinstance(x, dict):
+                if x.get('l') == lo + 1 and isinstance(x.get('p'), list) and x['p']:
+                    pp = x['p'][1:] if x['p'][0] == '*' else x['p']
+                    if pp and isinstance(pp[0], dict) and 'f' in pp[0] and pp[0]['f'] in ups:
+                        y = {k2: fix(v2) for k2, v2 in x.items() if k2 not in ('l', 'p')}
+                        y['l'] = ups[pp[0]['f']]
+                        y['p'] = [fix(e) for e in pp[1:]] or None
+                        return y
+                return {k2: fix(v2) for k2, v2 in x.items()}
+            if isinstance(x, list):
+                return [fix(v2) for v2 in x]
+            return x
+        ret_to, unw_to, dst = t['t'], t.get('u'), t['dst']
+        blk['s'] = blk['s'] + pre
+        blk['t'] = {'k': 'goto', 't': bo, 'ln': t.get('ln'), 'inl': d}
+        for cblk in cb['blocks']:
+            ss = [fix(_ren(s_, lo, bo)) for s_ in cblk['s']]
+            ct = cblk['t']
+            if ct['k'] == 'ret':
+                ss.append({'k': '=', 'pl': copy.deepcopy(dst), 'rv': {'k': 'use', 'op': {'k': 'mv', 'pl': {'l': lo, 'p': None}}}, 'ln': t.get('ln'), 'inl': d})
+                nt = {'k': 'goto', 't': ret_to, 'ln': ct.get('ln'), 'inl': d}
             elif ct['k'] == 'resume':
                 nt = {'k': 'goto', 't': unw_to, 'ln': ct.get('ln')} if isinstance(unw_to, int) else dict(ct)
             else:
@@ -521,6 +623,222 @@ def thread_jumps(body, adts, max_rounds=6, max_new=400):
     return body
 
 
+def _all_succs(t):
+    out = []
+    for k in ('t', 'u', 'else', 'drop'):      # the imaginary edge of a FalseEdge is never taken
+        if isinstance(t.get(k), int):
+            out.append(t[k])
+    for _, b in t.get('cases') or ():
+        out.append(b)
+    return out
+
+
+def _locals_in(x, out):
+    if isinstance(x, dict):
+        l = x.get('l')
+        if isinstance(l, int) and not isinstance(l, bool):
+            out.add(l)
+        i = x.get('idx')
+        if isinstance(i, int) and not isinstance(i, bool):
+            out.add(i)
+        for v in x.values():
+            if isinstance(v, (dict, list)):
+                _locals_in(v, out)
+    elif isinstance(x, list):
+        for v in x:
+            _locals_in(v, out)
+
+
+def _rename_local(x, l, nl):
+    if isinstance(x, dict):
+        y = {}
+        for k, v in x.items():
+            if k in ('l', 'idx') and v == l and isinstance(v, int) and not isinstance(v, bool):
+                y[k] = nl
+            elif isinstance(v, (dict, list)):
+                y[k] = _rename_local(v, l, nl)
+            else:
+                y[k] = v
+        return y
+    if isinstance(x, list):
+        return [_rename_local(v, l, nl) for v in x]
+    return x
+
+
+def split_webs(body):
+    """A local that is assigned in several places (the copies jump threading makes, the result slot of a spliced helper) is
+    split into one local per def-use web: definitions that never reach a common use get different names.  Which definition
+    a use sees is then a matter of the name again, as it was before the helper was moved out."""
+    blocks = body['blocks']
+    n = len(blocks)
+
+    def whole(pl):
+        return isinstance(pl, dict) and isinstance(pl.get('l'), int) and not pl.get('p')
+    # per statement: (def local | None, set of used locals)
+    info = []
+    defs = {}
+    for bb, blk in enumerate(blocks):
+        row = []
+        for j, st in enumerate(blk['s']):
+            if st.get('k') in ('live', 'dead'):
+                row.append((None, ()))
+                continue
+            d = None
+            u = set()
+            if st.get('k') == '=' and whole(st.get('pl')):
+                d = st['pl']['l']
+                _locals_in(st.get('rv'), u)
+            else:
+                _locals_in(st, u)
+            if d is not None:
+                defs.setdefault(d, []).append((bb, j))
+            row.append((d, u))
+        t = blk['t']
+        d = None
+        u = set()
+        if whole(t.get('dst')):
+            d = t['dst']['l']
+            _locals_in({k: v for k, v in t.items() if k != 'dst'}, u)
+            defs.setdefault(d, []).append((bb, 'T'))
+        else:
+            _locals_in(t, u)
+        row.append((d, u))
+        info.append(row)
+    multi = sorted(l for l, ds in defs.items() if len(ds) >= 2 and l != 0)
+    if not multi:
+        return body
+    preds = [[] for _ in range(n)]
+    for bb, blk in enumerate(blocks):
+        t = blk['t']
+        normal = t.get('t') if isinstance(t.get('t'), int) else None
+        for s_ in set(_all_succs(t)):
+            if 0 <= s_ < n:
+                preds[s_].append((bb, s_ == normal or t.get('k') != 'call'))
+    locals_ = list(body['locals'])
+    new_blocks = None
+    for l in multi:
+        ids = {d: i + 1 for i, d in enumerate(defs[l])}
+        # OUT sets per block: (normal edge, other edges)
+        last = {}
+        for bb in range(n):
+            cur = None
+            for j, (d, u) in enumerate(info[bb][:-1]):
+                if d == l:
+                    cur = ids[(bb, j)]
+            pre = cur
+            if info[bb][-1][0] == l:
+                cur = ids[(bb, 'T')]
+            last[bb] = (cur, pre)
+        IN = [set() for _ in range(n)]
+        IN[0] = {0}
+        work = list(range(n))
+        inw = set(work)
+        succs = [set(x for x in _all_succs(blocks[bb]['t']) if 0 <= x < n) for bb in range(n)]
+        while work:
+            bb = work.pop()
+            inw.discard(bb)
+            acc = set(IN[bb]) if bb == 0 else set()
+            for (pb, is_normal) in preds[bb]:
+                cur, pre = last[pb]
+                g = cur if is_normal else pre
+                if g is not None:
+                    acc.add(g)
+                else:
+                    acc |= IN[pb]
+            if acc != IN[bb]:
+                IN[bb] = acc
+                for s_ in succs[bb]:
+                    if s_ not in inw:
+                        work.append(s_)
+                        inw.add(s_)
+        parent = list(range(len(ids) + 1))
+
+        def find(x):
+            while parent[x] != x:
+                parent[x] = parent[parent[x]]
+                x = parent[x]
+            return x
+
+        def union(xs):
+            xs = list(xs)
+            for y in xs[1:]:
+                a, b = find(xs[0]), find(y)
+                if a != b:
+                    parent[max(a, b)] = min(a, b)
+        use_sets = {}
+        amb = set()
+        for bb in range(n):
+            cur = set(IN[bb])
+            for j, (d, u) in enumerate(info[bb]):
+                if l in u and cur:
+                    if j == len(info[bb]) - 1 and blocks[bb]['t'].get('k') == 'drop':
+                        # the clean-up of the slot is shared by every definition: it does not tie them together
+                        if len(cur) == 1:
+                            use_sets[(bb, j)] = next(iter(cur))
+                        else:
+                            amb.add((bb, j, frozenset(cur)))
+                    else:
+                        union(cur)
+                        use_sets[(bb, j)] = next(iter(cur))
+                if d == l:
+                    cur = {ids[(bb, j if j < len(info[bb]) - 1 else 'T')]}
+        for (bb, j, cur) in amb:
+            if len({find(x) for x in cur}) == 1:
+                use_sets[(bb, j)] = next(iter(cur))
+        groups = {}
+        for i in range(len(ids) + 1):
+            groups.setdefault(find(i), []).append(i)
+        real = [g for g, m in groups.items() if any(x != 0 for x in m)]
+        if len(real) < 2:
+            continue
+        # the web of the entry value (or the first one) keeps the name
+        keep = find(0) if any(x != 0 for x in groups[find(0)]) else min(real)
+        name_of = {}
+        for g in real:
+            if g == keep:
+                name_of[g] = l
+            else:
+                name_of[g] = len(locals_)
+                locals_.append(dict(locals_[l]))
+        if new_blocks is None:
+            new_blocks = [{'s': list(blk['s']), 't': blk['t']} for blk in blocks]
+        for bb in range(n):
+            for j, (d, u) in enumerate(info[bb]):
+                is_t = (j == len(info[bb]) - 1)
+                nl_use = name_of.get(find(use_sets[(bb, j)]), l) if (bb, j) in use_sets else l
+                nl_def = name_of.get(find(ids[(bb, 'T' if is_t else j)]), l) if d == l else l
+                if nl_use == l and nl_def == l:
+                    continue
+                node = new_blocks[bb]['t'] if is_t else new_blocks[bb]['s'][j]
+                if is_t:
+                    dst = node.get('dst')
+                    rest = {k: v for k, v in node.items() if k != 'dst'}
+                    if nl_use != l:
+                        rest = _rename_local(rest, l, nl_use)
+                    if dst is not None:
+                        rest['dst'] = _rename_local(dst, l, nl_def) if (d == l and nl_def != l) else (dst if d == l else (_rename_local(dst, l, nl_use) if nl_use != l else dst))
+                    new_blocks[bb]['t'] = rest
+                else:
+                    if d == l:
+                        st2 = dict(node)
+                        if nl_use != l:
+                            st2['rv'] = _rename_local(node['rv'], l, nl_use)
+                        if nl_def != l:
+                            st2['pl'] = _rename_local(node['pl'], l, nl_def)
+                        new_blocks[bb]['s'][j] = st2
+                    elif nl_use != l:
+                        new_blocks[bb]['s'][j] = _rename_local(node, l, nl_use)
+    if new_blocks is None:
+        return body
+    nb = dict(body)
+    nb['locals'] = locals_
+    nb['blocks'] = new_blocks
+    for k in list(nb):
+        if k.startswith('_'):
+            del nb[k]
+    return nb
+
+
 def normalise(F):
     """F.bodies after inlining every function that is not in the known set; returns the list of inlined helpers"""
     known = load_known()
@@ -532,6 +850,7 @@ def normalise(F):
     alias = {}
     out = {}
     INLINED_AWAITS.clear()
+    INLINED_CLOSURE_CALLS.clear()
     coros = _new_coroutines(F, newset)
     # the coroutine bodies of new async helpers first get their own (sync) helpers inlined
     for c_ in sorted(coros):
@@ -543,8 +862,10 @@ def normalise(F):
         if b.get('crate') in WS and coros and p not in coros:
             nb_ = inline_awaits(F, nb_, coros)
         if nb_ is not b:
+            nb_ = inline_closure_calls(F, nb_)
             nb_ = fold_constant_switches(nb_)
             nb_ = thread_jumps(nb_, F.adts)
+            nb_ = split_webs(nb_)
         out[p] = nb_
     # closures of inlined helpers live on under the caller's name too
     for a, orig in alias.items():
@@ -567,6 +888,17 @@ def normalise(F):
             if p in coros and created.get(p, 0) > 0 and INLINED_AWAITS.get(p, 0) >= created.get(p, 0):
                 continue
             out[p] = b
+    # a new function that is also handed over by name (`.filter_map(Self::helper)`) is not reachable through a call: it keeps a body of its own
+    from .families import _fn_items
+    work = [q for b in list(out.values()) if b.get('crate') in WS for q in _fn_items(b)]
+    while work:
+        q = work.pop()
+        if q in newset and q not in out and q in F.bodies:
+            nb_ = inline_into(F, F.bodies[q], newset - {q}, (), 0, alias)
+            if nb_ is not F.bodies[q]:
+                nb_ = thread_jumps(fold_constant_switches(nb_), F.adts)
+            out[q] = nb_
+            work += _fn_items(nb_)
     F.bodies = out
     F.inlined = sorted(newset)
     return F.inlined
